@@ -124,9 +124,11 @@ _pb("C04", "contract-based deductive verification (pyvc) of add_topnode (with al
     "add_topnode is proved to put exactly one new TOP node above the root and to change nothing else. "
     "Every `children.remove(X)` of the six re-attaching transformations is located in the real AST and the surrounding "
     "step is executed symbolically on an arbitrary link-consistent heap: links stay consistent, only X changes parent, the old "
-    "parent loses exactly X, the target gains exactly X (or X becomes a detached root). Acyclicity (except for root_attach, "
-    "lemma under C12), 'no childless constituent' (except the verylow guard, C13), token sequence and label multisets are "
-    "bounded only.",
+    "parent loses exactly X, the target gains exactly X (or X becomes a detached root). The side condition of the step - "
+    "the target is not at or below X, so no cycle arises - is a lemma for raising (target is the grandparent), for the "
+    "three punctuation movers (X is a token, the target has children) and for root_attach (C12); 'no childless "
+    "constituent' is proved for the guarded moves (C12, C13). Token sequence, label multisets and the transformations as "
+    "wholes are bounded only.",
     "proof of the link-consistency step at 9 sites (block contracts), bounded stand-in for the transformations; 'other'")
 _pb("C09", "contract-based deductive verification (pyvc) of grammarconst.label_strip_fanout (loop invariant, variant, raises iff all digits); bounded stand-in for the grammar files",
     "label_strip_fanout removes exactly the maximal trailing digit run and raises IndexError exactly for all-digit "
